@@ -1,5 +1,12 @@
 # per-property configuration of the check driver
 PROPS = {
+    "C05": {
+        "level_text": "EvaluateBatch and the response-list decoder are executed symbolically for every batch of n requests over {type 1, type 2}, every configuration of up to two model issuers per type with symbolic truncated key ids and every success/failure pattern: the decoded list has exactly n entries in order, an entry is present iff a configured issuer of that type and truncated id succeeds and then equals that issuer's response byte for byte. A second harness runs the batch end to end over the wire with real type-1 issuers (VOPRF contract) and finalizes every present entry under its own request state.",
+        "level_note": "Batch size <= 3 (quick) ; model issuers stand for arbitrary Issuer implementations; the end-to-end harness is relative to the VOPRF contract. Configurations in which a wrong-key issuer with a colliding truncated key id precedes the right one are outside the claim.",
+        "explanation": "batch_isolation (model issuers) and batch_e2e_type1",
+        "assumptions": ["Issuer implementations are deterministic per call and return responses of their type's length"],
+        "outside": ["batches longer than the bound", "truncated key id collisions with the wrong key listed first", "type-2 end-to-end finalisation (covered for single issuance under C01/C02)"],
+    },
     "C11": {
         "level_text": "CreateTokenRequestWithBlind(s) is executed twice symbolically with equal arguments and independent nondeterminism: the request bytes must be equal (no randomness or hidden state is consulted), each batch element must equal the element its own (nonce, blind) pair yields alone, and the finalized tokens for two arbitrary blinds must be byte-identical (the ideal VOPRF / blind-RSA output does not mention the blind). The shipped Rust vectors are replayed as translator-validation input, not as a solver verdict.",
         "level_note": "The for-all-pairs-of-blinds part is decided down to the dependency boundary: that unblinding cancels blinding inside circl is the dependency contract.",
